@@ -27,6 +27,10 @@ type graph struct {
 	// successThresholdSinks specifies how many sinks must successfully process
 	// an event for Process to not return an error.
 	successThresholdSinks int
+
+	// thresholdLock guards the two thresholds, which process reads without
+	// holding the Broker's lock.
+	thresholdLock sync.RWMutex
 }
 
 // Process the Event by routing it through all of the graph's nodes,
@@ -76,7 +80,10 @@ func (g *graph) process(ctx context.Context, e *Event) (Status, error) {
 			}
 		}
 	}
-	return status, status.getError(ctx.Err(), g.successThreshold, g.successThresholdSinks)
+	g.thresholdLock.RLock()
+	threshold, thresholdSinks := g.successThreshold, g.successThresholdSinks
+	g.thresholdLock.RUnlock()
+	return status, status.getError(ctx.Err(), threshold, thresholdSinks)
 }
 
 // Recursively process every node in the graph.
